@@ -165,20 +165,46 @@ def rule_a(ctx):
             raise AnalysisError('C03.a: cannot extract the prefix of %s (middle sizes %s, metadata length %s)' % (
                 T.name, sizes, metalen))
         middles[T] = sizes.pop()
-    # header-length table
+    # what the fragmenter is told precedes the payload of the first fragment: get_header_length(frame), evaluated per
+    # class and per "frame carries metadata" (a table lookup today; a computed value is accepted as well)
     m = ctx.repo.module('rsocket.frame')
+    ghl = m.functions.get('get_header_length')
+    if not ghl:
+        raise AnalysisError('C03.a: get_header_length vanished')
+    ghl = ghl[-1]
     tab = m.assigns.get('frame_header_length')
-    if not tab or not isinstance(tab[-1], ast.Dict):
-        raise AnalysisError('C03.a: frame_header_length table vanished')
-    table = {}
-    for k, v in zip(tab[-1].keys, tab[-1].values):
-        c = ctx.repo.resolve_expr(m, k)
-        val = ctx.repo.try_const(m, v)
-        if isinstance(c, ClassInfo):
-            table[c] = val
+    table_lit = {}
+    if tab and isinstance(tab[-1], ast.Dict):
+        for k, v in zip(tab[-1].keys, tab[-1].values):
+            c = ctx.repo.resolve_expr(m, k)
+            val = ctx.repo.try_const(m, v)
+            if isinstance(c, ClassInfo):
+                table_lit[c] = val
+    header_told = {}
+    ft = ('param', ghl.qualname, ghl.params()[0])
     for T in frag_classes:
-        ok = table.get(T) == HEADER + middles[T]
-        rep.add('C03.a', 'frame_header_length / %s' % T.name, (m.relpath, tab[-1].lineno), ok,
+        for meta in (False, True):
+            heap = {(ft, 'metadata'): const(b'm' if meta else None), (ft, '_flags_metadata'): const(False),
+                    (ft, 'flags_metadata'): const(meta), (ft, 'metadata_only'): const(False)}
+            vals = set()
+            for p in ctx.paths(ghl, None, args={ghl.params()[0]: AVal(ft, [T], exact=True)}, initial_heap=heap,
+                               stable_attrs=True, inline_depth=3):
+                if p.outcome != 'return':
+                    continue
+                t = strip_epoch(p.value.term)
+                if t[0] == 'const' and isinstance(t[1], int):
+                    vals.add(t[1])
+                elif t[0] == 'item' and 'frame_header_length' in repr(t[1]) and T in table_lit:
+                    vals.add(table_lit[T])
+                else:
+                    raise AnalysisError('C03.a: get_header_length(%s) is %s' % (T.name, fmt_term(t)[:80]))
+            if len(vals) != 1:
+                raise AnalysisError('C03.a: get_header_length(%s, metadata=%s) has values %s' % (T.name, meta, vals))
+            header_told[(T, meta)] = vals.pop()
+    table = {T: header_told[(T, False)] for T in frag_classes}
+    for T in frag_classes:
+        ok = all(header_told[(T, mt)] >= HEADER + middles[T] for mt in (False, True))
+        rep.add('C03.a', 'frame_header_length / %s' % T.name, ghl, ok,
                 'table says %s = 6 + %d bytes the class writes before the payload' % (table.get(T), middles[T]) if ok
                 else 'table says %s but %s writes 6 + %d bytes before the payload' % (table.get(T), T.name,
                                                                                        middles[T]))
@@ -222,7 +248,7 @@ def rule_a(ctx):
                         wire = comps_bound + (3 if L else 0) + hdr + (3 if carries_meta else 0)
                         # H is what get_header_length(T) passes for the first fragment
                         wire_n = Lin({k: v for k, v in wire.coef.items() if k != 'H'}, wire.const) + \
-                            Lin.k(table.get(T, 0)).scale(wire.coef.get('H', 0))
+                            Lin.k(header_told[(T, carries_meta)]).scale(wire.coef.get('H', 0))
                         slack = Lin.atom('S') - wire_n
                         key = kind
                         cur = results.setdefault(key, [])
